@@ -39,3 +39,26 @@ Print Assumptions C17_marker_is_anchored_at_the_start.
 Theorem C17_commented_out_marker_is_no_marker : forall rest, is_marker (35%Z :: 35%Z :: rest) = false.
 Proof. exact commented_out_marker_is_no_marker. Qed.
 Print Assumptions C17_commented_out_marker_is_no_marker.
+
+(* ---- hand-written table blocks (Fea/Tables.v): findTable, and the user's GDEF table however it is split into blocks ---- *)
+From U2F Require Import Fea.Tables Fea.TablesProofs.
+
+Theorem C17_find_table_skips_other_blocks : forall tag pre b post,
+  no_block tag pre -> find_table tag (pre ++ TBlock tag b :: post) = Some b.
+Proof. exact find_table_first. Qed.
+Print Assumptions C17_find_table_skips_other_blocks.
+
+Theorem C17_find_table_none_iff_no_block : forall tag l, find_table tag l = None <-> no_block tag l.
+Proof. exact find_table_none_iff. Qed.
+Print Assumptions C17_find_table_none_iff_no_block.
+
+Theorem C17_gdef_todo_does_not_depend_on_the_split : forall pre x y post hc hk,
+  gdef_todo_of (user_gdef (pre ++ TBlock GDEF (x ++ y) :: post)) hc hk =
+  gdef_todo_of (user_gdef (pre ++ TBlock GDEF x :: TBlock GDEF y :: post)) hc hk.
+Proof. exact todo_split_invariant. Qed.
+Print Assumptions C17_gdef_todo_does_not_depend_on_the_split.
+
+Theorem C17_other_table_blocks_are_immaterial : forall tag b l1 l2,
+  str_eqb tag GDEF = false -> user_gdef (l1 ++ TBlock tag b :: l2) = user_gdef (l1 ++ l2).
+Proof. exact user_gdef_ignores_other_blocks. Qed.
+Print Assumptions C17_other_table_blocks_are_immaterial.
